@@ -1,6 +1,8 @@
 import Srctools.Proofs.C03Next
 import Srctools.Proofs.C03Steps
+import Srctools.Proofs.C03Push
 import Srctools.Gen.Tok
+import Srctools.Gen.C03
 /-!
 # C03 — tokenizing is total and independent of how the input is chunked
 
@@ -219,6 +221,52 @@ theorem C03_steps_string (T : Tables) (o : Opts) (fold : Char → List Char) (t 
   simp only [runCalls, view_ofString]
   omega
 
+/-! ## Tokenizer objects: the push-back layer and the fresh state
+
+In the models a tokenizer is a value; the stream of a text is a function of the text, the options
+and the delivery alone.  For the code that is true only if every `Tokenizer(...)` starts from its
+own empty push-back stack, `line_num = 1`, index -1 — `C03_init_ok` re-checks, on the source as it
+is now, that `__init__` assigns these per instance and that no class-level value exists (a
+class-level `_pushback = []` is one list shared by all tokenizers of the process). -/
+
+/-- What the models assume about object construction and the push-back methods. -/
+def initOK (f : Gen.C03.InitFacts) : Bool :=
+  f.pushbackInitEmptyList && f.lineNumInitOne && f.pushbackNoClassValue && f.lineNumNoClassValue &&
+  f.tokCallsSuperInit && f.charIndexInitMinusOne && f.lastWasCrInitFalse && f.cursorNoClassValue &&
+  f.sourceSplitOk && f.callShapeOk && f.peekShapeOk && f.pushBackShapeOk
+
+/-- OBLIGATION on the current source: per-instance `self._pushback = []`, `self.line_num = 1`,
+`self._char_index = -1`, `self._last_was_cr = False`, nothing of it at class level, and
+`__call__`/`peek`/`push_back` written as modelled in `Model/C03Push.lean`. -/
+theorem C03_init_ok : initOK Gen.C03.facts = true := by decide
+
+/-- A fresh tokenizer has an empty push-back stack, line 1, `_last_was_cr` false, index -1 — whatever
+was done with other tokenizers before (there is nothing else it could depend on). -/
+theorem C03_fresh_state (cs : List (List Char)) :
+    let p : PB CSt (Kind × List Char) := PB.fresh { src := Src.ofChunks cs }
+    p.stack = [] ∧ p.src.line = 1 ∧ p.src.lastCr = false ∧ p.src.src.idx = -1 ∧ p.src.src.cur = [] :=
+  ⟨rfl, rfl, rfl, rfl, rfl⟩
+
+/-- `peek; call = call`: `peek` returns what `__call__` would, the following `__call__` returns the
+same token and leaves the tokenizer where a single `__call__` would have; an error passes through
+and pushes nothing. For any token source. -/
+theorem C03_peek_call {σ τ ε : Type} (get : σ → Except ε (τ × σ)) (p : PB σ τ) :
+    match p.call get with
+    | .ok (t, p') => p.peek get = .ok (t, p'.pushBack t) ∧ (p'.pushBack t).call get = .ok (t, p')
+    | .error e => p.peek get = .error e :=
+  PB.peek_then_call get p
+
+/-- `push_back(t); call` returns `t` and restores the tokenizer. -/
+theorem C03_push_call {σ τ ε : Type} (get : σ → Except ε (τ × σ)) (p : PB σ τ) (t : τ) :
+    (p.pushBack t).call get = .ok (t, p) :=
+  PB.call_pushBack get p t
+
+/-- The stream a consumer gets from a *fresh* tokenizer object through `__call__` is `run`; hence
+(with `C03_chunk_indep`) it depends on the joined text and the options only. -/
+theorem C03_fresh_stream (T : Tables) (o : Opts) (fold : Char → List Char) (cs : List (List Char)) :
+    pbRun T o fold (Src.ofChunks cs) = Tok.run T o fold cs.flatten := by
+  rw [pbRun_eq, C03_run_eq_abstract]
+
 /-! ## The theorems at the tables of the current source -/
 
 theorem C03_chunk_indep_current (o : Opts) (fold : Char → List Char) (cs : List (List Char)) :
@@ -260,5 +308,14 @@ example : (Src.next { cur := ['a', 'b'], idx := -3, rest := [['c']] }).1 = some 
 example : Reach Gen.Tok.tables {} (fun c => [c]) { src := Src.ofChunks C03_sample } := .chunks _
 
 example : opsOK { Gen.Tok.tables with operators := [('{', 0)] } = false := by decide
+
+/-- the refactor "defaults live on the class" is rejected -/
+example : initOK { Gen.C03.facts with pushbackInitEmptyList := false, pushbackNoClassValue := false } = false := by
+  decide
+
+/-- a stale pushed-back token *would* change the stream: the empty stack of `fresh` matters -/
+example : pbRunAux Gen.Tok.tables {} (fun c => [c]) 3
+    { stack := [(.braceClose, ['}'])], src := { src := Src.ofString ['a'] } } []
+    ≠ run Gen.Tok.tables {} (fun c => [c]) (Src.ofString ['a']) := by decide +kernel
 
 end TokC
